@@ -209,6 +209,13 @@ trait Pool {
     fn cheap(&self) -> bool {
         true
     }
+    /// "many generations" regime: block size with which the pool is driven through many arenas / chunks /
+    /// regions, and the size of the system allocations interleaved with it (the arena / chunk size)
+    fn gen_sizes(&self) -> (usize, usize) {
+        let cl = self.classes();
+        let s = cl[cl.len() / 2].min(self.max()).max(self.min());
+        (s, (s * 4).min(1 << 20))
+    }
     /// the request size matters (false: fixed-chunk pools; histories that differ only in sizes coincide)
     fn sized(&self) -> bool {
         true
@@ -243,6 +250,9 @@ impl Secure {
     }
 }
 impl Pool for Secure {
+    fn gen_sizes(&self) -> (usize, usize) {
+        (self.chunk, (self.chunk + 64).min(1 << 20))
+    }
     fn sized(&self) -> bool {
         false
     }
@@ -376,6 +386,10 @@ struct TlPool {
     excl: Excl,
 }
 impl Pool for TlPool {
+    fn gen_sizes(&self) -> (usize, usize) {
+        // the largest block a hot area serves (arena / 4): four blocks per arena
+        ((self.arena / 4).min(800 * 1024), self.arena)
+    }
     fn stride(&self) -> usize {
         3
     }
@@ -498,6 +512,9 @@ struct MemPool {
     last: Option<usize>,
 }
 impl Pool for MemPool {
+    fn gen_sizes(&self) -> (usize, usize) {
+        (self.chunk, self.chunk.min(1 << 20))
+    }
     fn sized(&self) -> bool {
         false
     }
@@ -684,6 +701,9 @@ struct Tiered {
     global: bool, // the process-wide allocator behind tiered_allocate / tiered_deallocate
 }
 impl Pool for Tiered {
+    fn gen_sizes(&self) -> (usize, usize) {
+        (20000, 20480) // the memory-mapped tier: one region per block
+    }
     fn stride(&self) -> usize {
         4
     }
@@ -981,6 +1001,9 @@ struct Mmap {
     min: usize,
 }
 impl Pool for Mmap {
+    fn gen_sizes(&self) -> (usize, usize) {
+        (self.min + 100, self.min + 4096)
+    }
     fn stride(&self) -> usize {
         10
     }
@@ -1173,7 +1196,7 @@ fn subjects() -> Vec<String> {
         "secure:global_large", "lockfree:zero_simd", "lockfree:zero_nosimd", "lockfree:zero_small64k", "fixedcap:lazy", "tiered:global",
         "bump:vec", "fl_handle:l2", "fl_handle:l3", "fl_handle:l4", "cachevec:u8", "secure:new40_a8",
         // the alignment dimension: 1, 2, 128, 256, 4096 and 64 KiB wherever a configuration carries an alignment
-        "secure:a1", "secure:a2", "secure:a128", "secure:a256", "secure:a4096", "secure:a64k", "mempool:a1", "mempool:a2", "mempool:a128",
+        "tlpool:tiny4k", "tlpool:tiny64k", "secure:a1", "secure:a2", "secure:a128", "secure:a256", "secure:a4096", "secure:a64k", "mempool:a1", "mempool:a2", "mempool:a128",
         "mempool:a256", "mempool:a4096", "mempool:a64k", "fixedcap:a1", "fixedcap:a2", "fixedcap:a128", "fixedcap:a256", "fixedcap:a4096",
         "fl_nolock:a4", "fl_nolock:a128", "fl_mutex:a64", "fl_lockfree:a256", "fl_fixed:a32",
     ]
@@ -1326,6 +1349,9 @@ fn make(name: &str, excl: &Excl) -> Option<Box<dyn Pool>> {
                 "default" => ThreadLocalPoolConfig::default(),
                 "compact" => ThreadLocalPoolConfig::compact(),
                 "high_performance" => ThreadLocalPoolConfig::high_performance(),
+                // tiny arenas: many arena generations within one run
+                "tiny4k" => ThreadLocalPoolConfig { arena_size: 4096, max_cached_chunks: 4, use_secure_memory: false, ..ThreadLocalPoolConfig::default() },
+                "tiny64k" => ThreadLocalPoolConfig { arena_size: 65536, max_cached_chunks: 8, ..ThreadLocalPoolConfig::compact() },
                 _ => return None,
             };
             let arena = cfg.arena_size;
@@ -1862,7 +1888,59 @@ fn drive_adjacent(run: &mut Run, rng: &mut Rng, rounds: usize) {
     }
 }
 
+/// many generations: the first blocks stay live (filled with their pattern) while the pool goes through
+/// `n` more allocations - many arenas / chunks / regions -, every live block re-read after every step; the
+/// system allocator is used in between (buffers of the arena size with another pattern), so that memory a
+/// pool gave back too early is handed out again; finally everything is freed in allocation order or in reverse
+fn drive_generations(run: &mut Run, rng: &mut Rng, n: usize, reverse: bool) {
+    let (size, filler) = run.pool().gen_sizes();
+    let aligns = run.pool().aligns();
+    let al = aligns[0];
+    let snapped = run.pool().snap(size);
+    let req = run.pool().req(snapped).max(1);
+    let n = n.min(((32usize << 20) / req).max(8));
+    let mut ring: std::collections::VecDeque<Vec<u8>> = std::collections::VecDeque::new();
+    for i in 0..n {
+        if run.dead {
+            break;
+        }
+        // mostly one size (fills arenas evenly), sometimes a neighbouring one
+        let s = if rng.chance(1, 8) { size.saturating_sub(1 + rng.below(9) as usize).max(1) } else { size };
+        run.alloc(s, al, true);
+        // foreign allocations of the arena size: reuse of anything the pool released
+        for _ in 0..2 {
+            let mut v = vec![0xA5u8; filler.max(16)];
+            v[0] = i as u8;
+            std::hint::black_box(&mut v);
+            ring.push_back(v);
+        }
+        while ring.len() > 6 {
+            ring.pop_front();
+        }
+        run.touch();
+    }
+    if run.pool().has_free() {
+        let mut k = 0usize;
+        while !run.live.is_empty() && !run.dead {
+            let i = if reverse { run.live.len() - 1 } else { 0 };
+            run.free_idx(i);
+            k += 1;
+            if k % 4 == 0 {
+                ring.push_back(vec![0x5Au8; filler.max(16)]);
+                if ring.len() > 6 {
+                    ring.pop_front();
+                }
+                run.touch();
+            }
+        }
+    }
+    drop(ring);
+}
+
 fn drive_run(run: &mut Run, rng: &mut Rng, regime: &str, steps: usize) {
+    if regime == "generations" || regime == "generations_rev" {
+        return drive_generations(run, rng, steps, regime == "generations_rev");
+    }
     if regime == "adjacent" {
         if !run.pool().has_free() {
             run.scope(true);
@@ -1965,9 +2043,9 @@ fn drive_run(run: &mut Run, rng: &mut Rng, regime: &str, steps: usize) {
 fn child_drive(a: &Args, name: &str, excl: &Excl) -> Value {
     let rng0 = Rng::new(a.seed).derive(name);
     let regimes: Vec<(&str, usize, usize)> = if a.thorough() {
-        vec![("mixed", 120, 40), ("churn", 120, 30), ("exhaust", 260, 6), ("adjacent", 10, 10)]
+        vec![("mixed", 120, 40), ("churn", 120, 30), ("exhaust", 260, 6), ("adjacent", 10, 10), ("generations", 160, 2), ("generations_rev", 160, 2)]
     } else {
-        vec![("mixed", 50, 3), ("churn", 50, 2), ("exhaust", 120, 1), ("adjacent", 5, 2)]
+        vec![("mixed", 50, 3), ("churn", 50, 2), ("exhaust", 120, 1), ("adjacent", 5, 2), ("generations", 48, 1), ("generations_rev", 48, 1)]
     };
     // quick tier: the 35 five-level subjects share their code paths pairwise (no contents to re-read): fewer runs each
     let regimes: Vec<(&str, usize, usize)> = if !a.thorough() && fam_of(name).starts_with("fl_") {
@@ -1986,6 +2064,9 @@ fn child_drive(a: &Args, name: &str, excl: &Excl) -> Value {
                     Ok(Some(p)) => p,
                     _ => return None,
                 };
+                if regime.starts_with("generations") && (pool.cap().is_some() || !pool.has_free()) {
+                    return Some(Counts::default()); // a pool with one fixed arena does not grow
+                }
                 jev(&reset_event(name, "b1", a.seed, json!({"regime":regime,"ri":ri,"r":r})));
                 let mut run = Run::new(pool, false);
                 drive_run(&mut run, &mut rng, regime, steps);
